@@ -168,3 +168,40 @@ pub proof fn lemma_fold_wip<'a, F: FnMut(Scalar, (&'a Scalar, &'a Scalar, &'a Sc
     }
     lemma_wip_chain(accs, xs, zs, y, off, n);
 }
+// the round messages sent so far are the specified functions of the successive folded states
+#[verifier::opaque]
+pub open spec fn rounds_ok(s0: PSt, y: Scalar, es: Seq<Scalar>, dls: Seq<Seq<Scalar>>, drs: Seq<Seq<Scalar>>, li: Seq<P>, ri: Seq<P>, hb: P, gb: Seq<P>, rounds: nat) -> bool {
+    &&& li.len() == rounds && ri.len() == rounds && es.len() == rounds && dls.len() == rounds && drs.len() == rounds
+    &&& forall|t: int| 0 <= t < rounds ==> #[trigger] li[t] == l_spec(pst(s0, y, es, t as nat), y, dls[t], hb, gb)
+    &&& forall|t: int| 0 <= t < rounds ==> #[trigger] ri[t] == r_spec(pst(s0, y, es, t as nat), y, drs[t], hb, gb)
+}
+pub proof fn lemma_rounds_ok_empty(s0: PSt, y: Scalar, hb: P, gb: Seq<P>)
+    ensures rounds_ok(s0, y, Seq::empty(), Seq::empty(), Seq::empty(), Seq::empty(), Seq::empty(), hb, gb, 0)
+{ reveal(rounds_ok); }
+pub proof fn lemma_rounds_ok_push(s0: PSt, y: Scalar, es: Seq<Scalar>, dls: Seq<Seq<Scalar>>, drs: Seq<Seq<Scalar>>, li: Seq<P>, ri: Seq<P>, hb: P, gb: Seq<P>, rounds: nat,
+        e: Scalar, dl: Seq<Scalar>, dr: Seq<Scalar>, l: P, r: P)
+    requires rounds_ok(s0, y, es, dls, drs, li, ri, hb, gb, rounds),
+        l == l_spec(pst(s0, y, es, rounds), y, dl, hb, gb), r == r_spec(pst(s0, y, es, rounds), y, dr, hb, gb)
+    ensures rounds_ok(s0, y, es.push(e), dls.push(dl), drs.push(dr), li.push(l), ri.push(r), hb, gb, rounds + 1)
+{
+    reveal(rounds_ok);
+    let es2 = es.push(e); let dls2 = dls.push(dl); let drs2 = drs.push(dr); let li2 = li.push(l); let ri2 = ri.push(r);
+    assert(es2.take(rounds as int) =~= es);
+    assert forall|t: int| 0 <= t < rounds + 1 implies #[trigger] li2[t] == l_spec(pst(s0, y, es2, t as nat), y, dls2[t], hb, gb) by {
+        lemma_pst_prefix(s0, y, es2, t as nat, rounds);
+        if t < rounds { assert(li2[t] == li[t] && dls2[t] == dls[t]); }
+    }
+    assert forall|t: int| 0 <= t < rounds + 1 implies #[trigger] ri2[t] == r_spec(pst(s0, y, es2, t as nat), y, drs2[t], hb, gb) by {
+        lemma_pst_prefix(s0, y, es2, t as nat, rounds);
+        if t < rounds { assert(ri2[t] == ri[t] && drs2[t] == drs[t]); }
+    }
+}
+// one more round: the state after t+1 rounds is the fold of the state after t rounds with the new challenge
+pub proof fn lemma_pst_push(s0: PSt, y: Scalar, es: Seq<Scalar>, e: Scalar, t: nat)
+    requires es.len() == t
+    ensures pst(s0, y, es.push(e), t + 1) == fold_st(pst(s0, y, es, t), y, e)
+{
+    let es2 = es.push(e);
+    assert(es2.take(t as int) =~= es);
+    lemma_pst_prefix(s0, y, es2, t, t);
+}
